@@ -271,7 +271,7 @@ def _fin_pdu_is_live(n):
     return len(ps) == 1 and ps[0].finished_params.oid == n.self._params.finished_params.oid
 
 
-C("_handle_positive_ack_procedures", arg_types=SELF, props=("C04",), result=None,
+C("_handle_positive_ack_procedures", arg_types=SELF, props=("C04", "C15"), result=None,
   requires=REQ_INV + [("DestInvTracker", lambda o: tracker_inv(o.self)), ("DestStepInv", lambda o: step_inv(o.self))] + DEFAULT + [("in_ack_wait", _pa_pre)],
   modifies=["self._params.positive_ack_params.ack_counter", "self._params.positive_ack_params.ack_timer",
             "self._params.positive_ack_params.ack_timer.expired", "self._pdus_to_be_sent", "self.states._num_packets_ready", "self.states.step", "self.states.state",
@@ -297,6 +297,12 @@ C("_handle_positive_ack_procedures", arg_types=SELF, props=("C04",), result=None
           step_is(n.self, STEP.WAITING_FOR_FINISHED_ACK), _pa(n.self).ack_counter == 0, _fin_pdu_is_live(n),
           Eq_(n.self._params.finished_params.condition_code, CC.POSITIVE_ACK_LIMIT_REACHED),
           Eq_(n.self._params.completion_disposition, CANCELED))), ("C04", "C14")),
+      # C15: the user learns the condition that the re-issued Finished PDU carries (Transaction-Finished indication with the live
+      # finished-params object, iff the switch is on); re-sends below the limit and the abandonment issue no indication
+      Clause("C15.fin.cancel_on_limit_is_indicated", lambda o, n, r: And_(
+          Implies_(And_(_pa_expired(o), _pa_limit_hit(o), ne(o.self._params.completion_disposition, CANCELED)), _fin_ind_ok(o, n)),
+          Implies_(Not_(And_(_pa_expired(o), _pa_limit_hit(o), ne(o.self._params.completion_disposition, CANCELED))),
+                   len(inds(n, "transaction_finished_indication")) == 0)), ("C15",)),
       # CFDP 4.11.2.3: a limit fault during the cancel exchange must end the transaction (bounded retries)
       Clause("C04.fin.abandon_when_cancel_exchange_times_out", lambda o, n, r: Implies_(And_(
           _pa_expired(o), _pa_limit_hit(o), eq(o.self._params.completion_disposition, CANCELED)),
